@@ -323,6 +323,8 @@ def _min_point(rc: RuleCtx):
             if r_.kind == "func" and r_.obj.qualname in ("rdp._grdp", "rdp._rdp_fixed"):
                 raise AnalysisError(f"{fi.qualname}: the result is assembled from the private loops ({r_.obj.qualname}) instead of one grdp / rdp_fixed call per "
                                     "threshold - shape not recognised")
+    from .common import account_loop_exits
+    account_loop_exits(fi)          # (G5 below reads the return inside the threshold loop: the first threshold whose result has enough points)
     ev = rc.new_eval()
     ev.no_inline |= {"rdp.grdp", "rdp.rdp_fixed"}
     pts = ev.point("points", True)
